@@ -337,6 +337,10 @@ func IsValidVoteproofsWithManifest(vps [2]Voteproof, manifest Manifest) error {
 		return e.Errorf("height does not match")
 	case !ivp.Point().Point.Equal(avp.Point().Point):
 		return e.Errorf("point does not match")
+	case avp.Result() != VoteResultMajority, avp.BallotMajority() == nil:
+		return e.Errorf("accept voteproof is not majority")
+	case !avp.BallotMajority().NewBlock().Equal(manifest.Hash()):
+		return e.Errorf("new block of accept voteproof does not match manifest")
 	}
 
 	return nil
